@@ -148,8 +148,10 @@ def pstmt(st):
         return 'RESTORE' if st[1] is None else 'RESTORE %d' % st[1]
     if k == 'dim':
         return 'DIM %s(%d)' % (st[1], st[2])
-    if k == 'fault':
+    if k == 'fault' or k == 'fncall':
         return st[1]
+    if k == 'deffn':
+        return 'DEF %s(X)=%s' % (st[1], st[2])
     raise ValueError(k)
 
 
@@ -784,8 +786,23 @@ FAULTS = [
 FAULTS_SOFT_DIV = [['fault', 'Q=1/0', 11, 'soft'], ['fault', 'Q%=7\\0', 11, 'soft'], ['fault', 'Q%=7 MOD 0', 11, 'soft']]
 
 
-def _c21_fault(r, feats, armed, control=True):
+# DEF FN bodies: (name, body, code raised by a call | None, soft?)
+FN_BODIES = [
+    ('FNA', 'SQR(-4)+X', 5, False), ('FNB', 'LOG(0)*X', 5, False), ('FNC$', 'MID$("abc",0)', 5, False),
+    ('FND', '1/0+X', 11, True), ('FNE%', 'X*40000', 6, False), ('FNF', 'X\\0', 11, True),
+    ('FNG', 'X*2+1', None, False), ('FNH$', 'CHR$(X+300)', 5, False), ('FNK', 'ASC("")+X', 5, False),
+]
+
+
+def _c21_fault(r, feats, armed, control=True, fns=()):
     """One failing statement; `armed` tells whether a trap is certainly set (1/0 allowed)."""
+    if fns and r.random() < 0.2:
+        name = r.choice(fns)
+        feats['fault_in_def_fn_body'] = feats.get('fault_in_def_fn_body', 0) + 1
+        target = 'Q$' if name.endswith('$') else r.choice(['Q', 'Q%', 'Q'])
+        if not name.endswith('$') and r.random() < 0.3:
+            return [['fncall', 'Q=1+%s(%d)*2' % (name, r.randint(1, 3)), name]]
+        return [['fncall', '%s=%s(%d)' % (target, name, r.randint(1, 3)), name]]
     k = r.random()
     if k < 0.45:
         from ..models import c19_rctrl as M
@@ -835,6 +852,15 @@ def gen_c21(rng):
     items = []
     armed = False
     off = False
+    # DEF FN definitions on their own early lines; some bodies fail when called
+    fns = []
+    if r.random() < 0.5:
+        for name, body, code, soft in r.sample(FN_BODIES, r.choice([1, 2, 3])):
+            items.append(('label', label()))
+            items.append(['deffn', name, body, code] + (['soft'] if soft else []))
+            fns.append(name)
+        items.append(('label', label()))
+        feats['def_fn_lines'] = len(fns)
 
     def P(p, extra=()):
         return ['print', tag(p), list(extra)]
@@ -852,7 +878,7 @@ def gen_c21(rng):
                     feats['gosub_to_faulting_sub'] = feats.get('gosub_to_faulting_sub', 0) + 1
                 elif q < 0.3:
                     # failing statement inside a THEN / ELSE branch
-                    br = [P('b')] + _c21_fault(r, feats, armed, depth == 0) + [P('b')]
+                    br = [P('b')] + _c21_fault(r, feats, armed, depth == 0, fns) + [P('b')]
                     other = [P('c')] if r.random() < 0.5 else None
                     if r.random() < 0.5:
                         out.append(['if', ['=', 'C%', 'C%'], br, other, ''])
@@ -861,7 +887,7 @@ def gen_c21(rng):
                     feats['fault_in_if_branch'] = feats.get('fault_in_if_branch', 0) + 1
                     return out
                 else:
-                    out.extend(_c21_fault(r, feats, armed, depth == 0))
+                    out.extend(_c21_fault(r, feats, armed, depth == 0, fns))
             else:
                 out.append(P(where[0]))
         return out
@@ -950,7 +976,7 @@ def gen_c21(rng):
             items.append(['resume', '@%d' % r.choice(main_labels)])
             form = 'line'
         elif k < 0.9:
-            items.extend(_c21_fault(r, feats, True))
+            items.extend(_c21_fault(r, feats, True, True, fns))
             items.append(['resume', 'next'])
             form = 'fault_in_handler'
         elif k < 0.95 and subs is not None:
@@ -982,7 +1008,7 @@ def gen_c21(rng):
         pos = r.randint(0, n - 1)
         for i in range(n):
             if i == pos:
-                f = _c21_fault(r, feats, darmed)
+                f = _c21_fault(r, feats, darmed, True, fns)
                 # (no control-flow faults from the direct line: the stack of a previous run is not pinned)
                 direct.extend(f)
             else:
